@@ -235,10 +235,10 @@ func (n *Node) waitTask(id string) error {
 // ------------------------------------------------------------------ every-byte tampering
 
 type SweepResult struct {
-	Requests    int          `json:"requests"`
-	Checks      int          `json:"checks"`
-	Divergences []Divergence `json:"divergences"`
-	Errors      []string     `json:"errors"`
+	Requests    int            `json:"requests"`
+	Checks      int            `json:"checks"`
+	Divergences []Divergence   `json:"divergences"`
+	Errors      []string       `json:"errors"`
 	Segments    map[string]int `json:"segments"`
 }
 
